@@ -291,6 +291,19 @@ SyntaxVisitor::Action DeclarationBinder::visitIdentifierName(const IdentifierNam
     return Action::Skip;
 }
 
+SyntaxVisitor::Action DeclarationBinder::visitExtGNU_EnclosedCompoundStatementExpression(
+        const ExtGNU_EnclosedCompoundStatementExpressionSyntax* node)
+{
+    // The declarations of a statement expression start from their own specifiers, not
+    // from the type of the declaration whose initializer they stand in.
+    TypeStack tys;
+    std::swap(tys_, tys);
+    VISIT(node->statement());
+    std::swap(tys_, tys);
+
+    return Action::Skip;
+}
+
 //--------//
 // Common //
 //--------//
